@@ -497,6 +497,40 @@ func runC14(c *sim.Ctx) *sim.Violation {
 				}
 				o1 := ReadOne(link.NewReader(c, f1, link.Mode{}))
 				o2 := ReadOne(link.NewReader(c, f2, link.Mode{}))
+				if o1.Kind == "packet" && o2.Kind == "packet" {
+					// the two are separate packets: the program changes the second at once - a
+					// list element in place, one more user property, a few setters - and the
+					// first must not feel it
+					before, _ := snapshot(o1.P)
+					typ2 := drv.TypeOf(o2.P)
+					var did []string
+					sim.Guard(func() {
+						for _, o := range []drv.Op{{Kind: "editlist", N: 0, ID: 0x87, B: []byte("touched")}, {Kind: "editlist", N: 0, ID: 9, Flag: true}, {Kind: "userprops", KV: [][2][]byte{{[]byte("late"), []byte("x")}}}} {
+							if typ2 >= 1 && typ2 <= 15 && typ2 != ref.PingReq && typ2 != ref.PingResp && (o.Kind != "userprops" || drv.HasSetter(typ2, 0x26)) {
+								if drv.Apply(o2.P, o) == nil {
+									did = append(did, o.String())
+								}
+							}
+						}
+						if typ2 >= 1 && typ2 <= 15 && typ2 != ref.PingReq && typ2 != ref.PingResp {
+							g := &gen.G{T: t}
+							for k := 0; k < 2; k++ {
+								if o := c12Op(g, typ2); o.Kind != "rewill" && o.Kind != "editwill" && o.Kind != "sibling" {
+									if drv.Apply(o2.P, o) == nil {
+										did = append(did, o.String())
+									}
+								}
+							}
+						}
+					})
+					after, _ := snapshot(o1.P)
+					if f, wv, gv := ref.FirstDiff(before, after); f != "" {
+						return sim.V("C14/"+typeName(typ2)+"/bystander-changed/"+f,
+							"the frame %s was decoded twice back to back (second time as %s); the program then changed the SECOND packet %v and accessor %s of the FIRST changed from %q to %q\nhistory: %s",
+							hexs(f1), hexs(f2[:1]), did, f, wv, gv, hist)
+					}
+					c.Count("probe.twin-changed-at-once-after-back-to-back-decode")
+				}
 				for k, o := range []Outcome{o1, o2} {
 					if o.Kind == "packet" {
 						fr := [][]byte{f1, f2}[k]
